@@ -43,7 +43,7 @@ def do_py(cases):
     return res
 
 
-def do_ctype(cases, progress):
+def do_ctype(cases, progress, markers=False):
     import _cffi_backend
     res = []
     ffi = _cffi_backend.FFI()
@@ -70,6 +70,9 @@ def do_ctype(cases, progress):
             pf.seek(0)
             pf.write("%d\n" % i)
             pf.flush()
+            if markers:
+                sys.stderr.write("@@C30 %d\n" % i)
+                sys.stderr.flush()
             s = c["text"]
             arg = s.encode("latin-1") if c.get("bytes") else s
             f = ffis[c.get("ffi", 0) % len(ffis)]
@@ -89,7 +92,7 @@ def main(payload):
     if payload["op"] == "py":
         return dict(results=do_py(payload["cases"]))
     if payload["op"] == "ctype":
-        return dict(results=do_ctype(payload["cases"], payload["progress"]))
+        return dict(results=do_ctype(payload["cases"], payload["progress"], payload.get("markers", False)))
     return dict(results=do_re(payload["cases"]))
 
 
